@@ -56,6 +56,9 @@ class EncRun:
         if name == 'is_zero' and c.get('trait') == 'CurveAffine':
             fr.storev(dest, ('bool', ('is_identity',)))
             return True
+        if name == 'zero' and c.get('trait') == 'ff::Field' and not args and (c.get('self_ty') or '').endswith('fq::Fq'):
+            fr.storev(dest, ('fq-zero',))
+            return True
         if name == 'into_repr' and c.get('trait') == 'ff::PrimeField':
             fr.storev(dest, ('repr_of', fr.deref_operand(args[0])))
             return True
@@ -68,11 +71,16 @@ class EncRun:
             return True
         if name == 'negate' and c.get('trait') == 'ff::Field':
             v = fr.deref_operand(args[0])
-            fr.store_through(args[0], ('neg', v))
+            fr.store_through(args[0], neg_of(v))
             return True
-        if c.get('trait') == 'std::cmp::PartialOrd' and name in ('gt', 'lt', 'ge', 'le'):
+        if (c.get('trait') == 'std::cmp::PartialOrd' and name in ('gt', 'lt', 'ge', 'le')) or (c.get('trait') == 'std::cmp::PartialEq' and name in ('eq', 'ne')):
             a = fr.deref_operand(args[0])
             b = fr.deref_operand(args[1])
+            for _ in range(3):
+                if isinstance(a, Ref):
+                    a = fr._project(fr.store.get(a.root, TOP), a.proj)
+                if isinstance(b, Ref):
+                    b = fr._project(fr.store.get(b.root, TOP), b.proj)
             fr.storev(dest, ('bool', (name, freeze(a), freeze(b), c.get('self_ty'))))
             return True
         if c.get('trait') == 'std::cmp::Ord' and name == 'cmp':
@@ -116,6 +124,8 @@ class EncRun:
         for k in range(n):
             # canonical representation (< q < 2^381): the top three bits of the first byte are clear
             nb_ = EByte(src, k, 0xe0, 0) if k == 0 else EByte(src, k)
+            if src == ('fq-zero',):
+                nb_ = Int(0, 8)     # the canonical representation of 0
             fr.store[v.root] = fr._update(fr.store.get(v.root), list(base) + [['ci', lo + k, 0, False]], nb_)
         if advance:
             new = Ref(v.root, list(base) + [['off', lo + n, hi - lo - n]])
@@ -140,6 +150,15 @@ class EncRun:
         res = I.run(self.path, [aff])
         self.call_sites = I.call_sites
         return res
+
+
+def neg_of(v):
+    """-v; an extension-field element is negated coefficient by coefficient"""
+    if isinstance(v, Agg) and v.items and all(isinstance(x, (str, tuple)) for x in v.items):
+        return Agg([neg_of(x) for x in v.items], v.kind)
+    if isinstance(v, tuple) and len(v) == 2 and v[0] == 'neg':
+        return v[1]
+    return ('neg', v)
 
 
 def same(a, b):
@@ -182,58 +201,99 @@ def rule_encoders(fx, rep):
             order = [x.items[1], x.items[0]] + ([] if compressed else [y.items[1], y.items[0]])
         base = 'bls12_381::fq::Fq' if g == 'G1' else 'bls12_381::fq2::Fq2'
         kid = ('is_identity',)
-        fy, fny = freeze(y), freeze(('neg', y))
-        # the sort predicate in all its spellings: key -> polarity meaning "y > -y"
-        sort_keys = {('gt', fy, fny, base): True, ('lt', fny, fy, base): True, ('le', fy, fny, base): False, ('ge', fny, fy, base): False}
-        bad = []
-        present = tt.predicates(res)
-        sk = None
-        for k_ in present:
-            if k_ == kid:
-                continue
-            if k_ in sort_keys:
-                sk = k_
+        fy, fny = freeze(y), freeze(neg_of(y))
+        # the comparisons of y with -y, whole or coefficient by coefficient (most significant first), are decided in the
+        # worlds (order of c against -c per coefficient); the flag must be the lexicographic "y > -y"
+        comps = ['y'] if g == 'G1' else ['y.c1', 'y.c0']
+        FLIP = {'lt': 'gt', 'gt': 'lt', 'eq': 'eq'}
+
+        def lex(world):
+            for c_ in comps:
+                if world[c_] != 'eq':
+                    return world[c_]
+            return 'eq'
+
+        def eval_pred(x, world):
+            if not (isinstance(x, tuple) and len(x) >= 3 and x[0] in ('gt', 'lt', 'ge', 'le', 'eq', 'ne')):
+                return None
+            a_, b_ = x[1], x[2]
+            o = None
+            if (a_, b_) == (fy, fny):
+                o = lex(world)
+            elif (a_, b_) == (fny, fy):
+                o = FLIP[lex(world)]
             else:
-                bad.append('tests %r; the only data-dependent decisions are "is the identity" and y > -y in the coordinate field %s' % (k_, base.rsplit('::', 1)[1]))
-        if compressed and sk is None and not bad:
-            bad.append('no comparison of y with -y decides the sort flag')
-        if not compressed and sk is not None:
-            bad.append('an uncompressed encoder compares y with -y (uncompressed encodings never carry the sort flag)')
-        keys = [kid] + ([sk] if sk is not None else [])
+                for c_ in comps:
+                    if (a_, b_) == (c_, freeze(('neg', c_))):
+                        o = world[c_]
+                    elif (a_, b_) == (freeze(('neg', c_)), c_):
+                        o = FLIP[world[c_]]
+            if o is None:
+                return None
+            return {'gt': o == 'gt', 'lt': o == 'lt', 'ge': o in ('gt', 'eq'), 'le': o in ('lt', 'eq'), 'eq': o == 'eq', 'ne': o != 'eq'}[x[0]]
+        bad = []
+        n_sort_tests = 0
         for pth, ret, _ in res:
             ev = [e for e in pth.events if e[0].startswith('assert-') or e[0] == 'unwrap-fails' or (e[0] == 'write_be' and not e[2])]
             if ev or (isinstance(ret, tuple) and ret and ret[0] == 'diverges'):
                 bad.append('a write can fail / panic: %s' % (ev[:2] or ret,))
-        for env, cons in ([] if bad else tt.table(res, keys)):
-            if len(cons) != 1:
-                bad.append('%r: %d paths' % (env, len(cons)))
-                continue
-            ret = cons[0][1]
-            if not (isinstance(ret, Agg) and ret.items and isinstance(ret.items[0], Agg) and len(ret.items[0].items) == nbytes):
-                bad.append('result is not a %d-byte array wrapper' % nbytes)
-                continue
-            by = ret.items[0].items
-            b7 = 1 if compressed else 0
-            if env[kid]:
-                want0 = 0x40 | (b7 << 7)
-                if not (isinstance(by[0], Int) and by[0].v == want0 and all(isinstance(z, Int) and z.v == 0 for z in by[1:])):
-                    bad.append('identity encodes to first byte %r (expected %#x followed by zeros)' % (by[0], want0))
-                continue
-            sort = bool(sk is not None and (env[sk] == sort_keys[sk]))
-            want_bits = (b7 << 7) | ((1 if sort else 0) << 5)
-            for pos, z in enumerate(by):
-                w_src, w_j = order[pos // 48], pos % 48
-                if not (isinstance(z, EByte) and same(z.src, w_src) and z.j == w_j):
-                    bad.append('byte %d is %r, expected byte %d of the canonical representation of %s (wire order %s)' % (pos, z, w_j, w_src, order))
-                    break
-                if pos == 0:
-                    if not ((z.mask & 0xe0) == 0xe0 and (z.val & 0xe0) == want_bits and not (z.mask & 0x1f)):
-                        bad.append('first byte is %r for y > -y = %s, expected top bits %s over the coordinate bits' % (z, sort, format(want_bits >> 5, '03b')))
-                elif pos % 48 == 0:
-                    if not (z.mask == 0xe0 and z.val == 0):
-                        bad.append('byte %d carries extra bits: %r' % (pos, z))
-                elif z.mask or z.cleared:
-                    bad.append('byte %d is modified: %r' % (pos, z))
+            for lab, taken in pth.labels:
+                x_, neg_ = tt.strip_not(lab)
+                if x_ == kid:
+                    continue
+                if eval_pred(x_, dict((c_, 'gt') for c_ in comps)) is None:
+                    bad.append('tests %r; the only data-dependent decisions are "is the identity" and the order of y against -y in the coordinate field %s' % (x_, base.rsplit('::', 1)[1]))
+                else:
+                    n_sort_tests += 1
+        if compressed and not n_sort_tests and not bad:
+            bad.append('no comparison of y with -y decides the sort flag')
+        if not compressed and n_sort_tests:
+            bad.append('an uncompressed encoder compares y with -y (uncompressed encodings never carry the sort flag)')
+        import itertools
+        worlds = [dict(zip(comps, w_)) for w_ in itertools.product(('lt', 'eq', 'gt'), repeat=len(comps))]
+        for ident in ((True, False) if not bad else ()):
+            for world in worlds:
+                cons = []
+                for pth, ret, _ in res:
+                    okp = True
+                    for lab, taken in pth.labels:
+                        x_, neg_ = tt.strip_not(lab)
+                        truth = (taken != 0) != neg_
+                        val = ident if x_ == kid else eval_pred(x_, world)
+                        if val != truth:
+                            okp = False
+                            break
+                    if okp:
+                        cons.append((pth, ret))
+                if len(cons) != 1:
+                    bad.append('identity=%s, order of y against -y %r: %d paths' % (ident, world, len(cons)))
+                    continue
+                ret = cons[0][1]
+                if not (isinstance(ret, Agg) and ret.items and isinstance(ret.items[0], Agg) and len(ret.items[0].items) == nbytes):
+                    bad.append('result is not a %d-byte array wrapper' % nbytes)
+                    continue
+                by = ret.items[0].items
+                b7 = 1 if compressed else 0
+                if ident:
+                    want0 = 0x40 | (b7 << 7)
+                    if not (isinstance(by[0], Int) and by[0].v == want0 and all(isinstance(z, Int) and z.v == 0 for z in by[1:])):
+                        bad.append('identity encodes to first byte %r (expected %#x followed by zeros)' % (by[0], want0))
+                    continue
+                sort = bool(compressed and lex(world) == 'gt')
+                want_bits = (b7 << 7) | ((1 if sort else 0) << 5)
+                for pos, z in enumerate(by):
+                    w_src, w_j = order[pos // 48], pos % 48
+                    if not (isinstance(z, EByte) and same(z.src, w_src) and z.j == w_j):
+                        bad.append('byte %d is %r, expected byte %d of the canonical representation of %s (wire order %s)' % (pos, z, w_j, w_src, order))
+                        break
+                    if pos == 0:
+                        if not ((z.mask & 0xe0) == 0xe0 and (z.val & 0xe0) == want_bits and not (z.mask & 0x1f)):
+                            bad.append('first byte is %r when the order of y against -y is %r (y > -y: %s), expected top bits %s over the coordinate bits' % (z, world, sort, format(want_bits >> 5, '03b')))
+                    elif pos % 48 == 0:
+                        if not (z.mask == 0xe0 and z.val == 0):
+                            bad.append('byte %d carries extra bits: %r' % (pos, z))
+                    elif z.mask or z.cleared:
+                        bad.append('byte %d is modified: %r' % (pos, z))
         rep.check(not bad, 'BYTES', '%s:encoder' % name,
                   '%d bytes; identity -> %#x then zeros; finite -> canonical big-endian coordinates in wire order (x before y, c1 before c0), top bits (%d, 0, %s)'
                   % (nbytes, 0x40 | (0x80 if compressed else 0), 1 if compressed else 0, 'y > -y in the coordinate field\'s order' if compressed else '0'),
